@@ -49,6 +49,11 @@ def curated() -> List[dict]:
         T({4: S("seq", 1, 2)}, {1: S("replace", 7)}),
         T({4: S("seq", 1, 7)}, {1: S("replace", 2, 7)}),                  # replace that ends with next_inner (a leaf) == insert
         T({4: S("iter", 0, 1, 0, 2)}, {1: S("raise"), 2: S("raise")}, [True, True, False]),
+        # a prune issued INSIDE inserted items must not reach next_inner even if next_inner was found deeper
+        # (the Trio to_thread/from_thread shape): f1 inserts w6 -> f3 (prunes); next_inner f2 sits one layer deeper
+        T({4: S("seq", 1, 5), 5: S("one", 2), 6: S("one", 3)}, {1: S("insert", 6), 3: S("replace")}),
+        T({4: S("seq", 1, 5), 5: S("seq", 6), 6: S("seq", 2, 3)}, {1: S("insert", 3), 3: S("replace")}),
+        T({4: S("seq", 1, 5), 5: S("seq", 6), 6: S("seq", 2)}, {1: S("insert", 7, 3), 3: S("replace", 7)}),
     ]
 
 
